@@ -21,12 +21,14 @@ import (
 // C21 — Parameter expansion matches bash.
 //
 // Streams (tie, model = code):
-//   fields  expand.Fields of the word `${…}` / `"${…}"` (source text parsed by the Bash parser) over a
-//           map-backed environment = ShVerif.C21.fields
-//   lit     expand.Literal of the same word = ShVerif.C21.paramExp
-//   rm      removePattern (hook) = the model's removal with Go's regexp as the matcher parameter
-//           (tables of which prefixes/suffixes match); rm3: the same with the L3 matcher
-//   casetab unicode.ToUpper/ToLower on the modelled range
+//
+//	fields  expand.Fields of the word `${…}` / `"${…}"` (source text parsed by the Bash parser) over a
+//	        map-backed environment = ShVerif.C21.fields
+//	lit     expand.Literal of the same word = ShVerif.C21.paramExp
+//	rm      removePattern (hook) = the model's removal with Go's regexp as the matcher parameter
+//	        (tables of which prefixes/suffixes match); rm3: the same with the L3 matcher
+//	casetab unicode.ToUpper/ToLower on the modelled range
+//
 // Streams (spec, property = code): spectab, specsub, specrm, specrepl, speccase.
 // Search leg (independent oracle = bash): scripts printing the fields, interp vs bash.
 func init() { register("C21", c21) }
@@ -45,11 +47,12 @@ type c21Var struct {
 }
 
 type c21State struct {
-	ifsSet bool
-	ifs    string
-	params []string
-	names  []string // regular variables, in script order
-	vars   map[string]c21Var
+	argNoUnset bool // expand operator words under set -u, like the case itself
+	ifsSet     bool
+	ifs        string
+	params     []string
+	names      []string // regular variables, in script order
+	vars       map[string]c21Var
 }
 
 type c21Case struct {
@@ -247,25 +250,25 @@ func (st c21State) env() *c21Env {
 // the parsed expansion
 
 type c21PE struct {
-	name     string
-	idxKind  byte // '-', '@', '*', 'w' (literal word), 'e' (other expression)
-	idxText  string
-	excl     bool
-	length   bool
-	names    int
-	kind     byte // 'N', 'S', 'R', 'X'
-	hasOff   bool
-	off      int
-	hasLen   bool
-	ln       int
-	all      bool
-	anchor   byte // 'n', 'p', 's'
-	orig     string // expand.Pattern of Repl.Orig
-	with     string
-	op       string
-	arg      string
-	argQuoted bool // the argument word has a quoted part
-	origSrcSlash bool // replace pattern source starts with '/'
+	name          string
+	idxKind       byte // '-', '@', '*', 'w' (literal word), 'e' (other expression)
+	idxText       string
+	excl          bool
+	length        bool
+	names         int
+	kind          byte // 'N', 'S', 'R', 'X'
+	hasOff        bool
+	off           int
+	hasLen        bool
+	ln            int
+	all           bool
+	anchor        byte   // 'n', 'p', 's'
+	orig          string // expand.Pattern of Repl.Orig
+	with          string
+	op            string
+	arg           string
+	argQuoted     bool // the argument word has a quoted part
+	origSrcSlash  bool // replace pattern source starts with '/'
 	withAmp       bool // an unquoted part of the replacement yields a '&'
 	withBackslash bool // an unquoted literal part of the replacement has a backslash
 }
@@ -424,6 +427,10 @@ func c21Decode(pe *syntax.ParamExp, src string, st *c21State) (*c21PE, string) {
 	cfg0 := &expand.Config{Env: &c21Env{m: map[string]expand.Variable{}}}
 	if st != nil {
 		cfg0.Env = st.env()
+		// under `set -u` an operator word that reads an unset parameter (${x/p/$1}) is an error of
+		// that word's expansion, raised before the operator runs: such a case is outside the model
+		// ("arg-error" below), the words being handed to the model already expanded
+		cfg0.NoUnset = st.argNoUnset
 	}
 	switch {
 	case pe.Slice != nil:
@@ -1434,6 +1441,7 @@ func c21GenCase(r *Rand) c21Case {
 // tie: one case
 
 func c21RunCase(c *Ctx, cs c21Case) (*c21PE, bool) {
+	cs.st.argNoUnset = cs.nounset
 	w, d, perr := c21Parse(cs.src, cs.quoted, &cs.st)
 	if cs.ast != nil {
 		d, perr = c21Decode(cs.ast, "", &cs.st)
